@@ -12,6 +12,13 @@ Real code: VerifyScript / EvalScript of the working tree on ARBITRARY byte strin
     (|stack|+|altstack| <= 1003, nOpCount <= 221, elements <= max(520, initial)): suffix `!limits`.
 Known findings (not repaired): D6 flags with CLEANSTACK but without P2SH -> AssertionError; D7 inIdx < -|vin| (and
 SIGHASH_SINGLE with inIdx < -|vout|) -> IndexError.  They are generated on purpose and recognised by `signature()`.
+D21 (known finding): a transaction whose fields are outside the wire range — nVersion / nValue of an IMMUTABLE object
+(the public constructors do not validate them), nLockTime / nSequence / prevout.n = 2^32 or a prevout hash that is not
+32 bytes assigned on a MUTABLE object — reaching a signature check: struct.error (serialize) or ValueError (from_tx)
+escapes out of RawSignatureHash.  The model mirrors Python there (`err:py:error` / `err:valueerr`; every theorem about
+containment carries FieldsWF); the check generates such transactions, the property's demand (validation or none) is
+not met and the case is recognised as D21 only if the model gives the same answer and the fields are out of range.
+The observation takes snapshots of the FIELD VALUES of txTo (serialize() itself may raise).
 A negative index in range (-|vin| <= inIdx < 0) raises nothing: `txTo.vin[inIdx]` WRAPS, the digest is the one of
 that wrapped position with every sequence number zeroed under NONE/SINGLE (Model/ScriptEnvReal.rawSignatureHashNeg);
 signatures over that digest verify, in Python and in the model.
@@ -23,7 +30,7 @@ txTo, indices {0, last, |vin|, |vin|+7, -1, -|vin|, -|vin|-1, -5}, all 16 flag s
 """
 from ..framework import Prop, mk, ensure_repo_on_path, Case, exc_family
 from .. import txfmt
-from .c06 import ScriptGen, push, pushnum, parse_ops, stack_arg, parse_stack_arg, ADMISSIBLE, ALL_MASKS
+from .c06 import C06 as _C06, ScriptGen, push, pushnum, parse_ops, stack_arg, parse_stack_arg, ADMISSIBLE, ALL_MASKS
 
 
 class C07(Prop, ScriptGen):
@@ -33,7 +40,7 @@ class C07(Prop, ScriptGen):
     table_groups = ['Opcodes']
     theorems = ['BtcVerif.C07.' + t for t in (
         'verify_total', 'only_known_findings', 'verify_contained', 'error_state_limits', 'eval_contained',
-        'eval_state_limits', 'state_limits_between_ops')] + ['BtcVerif.C06.Concrete.' + t for t in (
+        'eval_state_limits', 'state_limits_between_ops', 'loop_append', 'state_limits_every_iteration')] + ['BtcVerif.C06.Concrete.' + t for t in (
             'hashesOK_real', 'raises_real_iff', 'only_known_findings_real', 'verify_contained_real',
             'eval_contained_real', 'error_state_limits_real')]
     anchors = [('bitcoin/core/scripteval.py', f) for f in (
@@ -47,6 +54,8 @@ class C07(Prop, ScriptGen):
                    'range (Spec.Sighash.FieldsWF; outside it from_tx / serialize raise ValueError / struct.error, modelled '
                    'as explicit outcomes, not generated); containment: inIdx >= 0 or wrapping (IdxOK), flags admissible',
                    'error_state_limits_real: none (any transaction, any int index, any flag set)',
+                   'known findings D6 / D7 / D21 are recognised only when the model (which mirrors Python) gives the same '
+                   'answer as the implementation, under the conditions of only_known_findings_real / raises_real_iff',
                    'the state compared in T2 is the one the limit theorems bound: `{stack|altstack|nOpCount}` of the '
                    'driver is Model.ScriptEval.Captured']
     rule = ('random byte strings 0..10001 as scriptSig/scriptPubKey (uniform + opcode-alphabet), every truncation point '
@@ -58,7 +67,10 @@ class C07(Prop, ScriptGen):
             'valid and invalid coordinates; each reaching CHECKSIG, CHECKSIGVERIFY, CHECKMULTISIG 1-of-1 / 1-of-2 (either '
             'position) / VERIFY, bare, through P2SH and by EvalScript.  For operand cases where OpenSSL accepts an encoding '
             'the strict model rejects, only containment is compared (both outcomes none/ValidationError); '
-            'non-trivial = some script non-empty')
+            'transactions with one field outside the wire range (immutable: nVersion in {2^31, -2^31-1}, nValue in {2^63, '
+            '-2^63-1}; mutable: the same and nLockTime / nSequence / prevout.n = 2^32, 31/33-byte prevout hash) x indices '
+            '{0,1,|vin|} x P2PK (5 hash types) / CHECKMULTISIG / empty signature / no signature check; every 1-opcode program '
+            'at negative indices; non-trivial = some script non-empty')
 
     def setup(self):
         self.init_lib()
@@ -105,6 +117,32 @@ class C07(Prop, ScriptGen):
     def idx_choices(self, ti):
         n = len(self.txs[ti]['vin'])
         return [0, n - 1, n, n + 7, -1, -n, -n - 1, -5]
+
+    def oor_transactions(self, base):
+        """[(name, plain tx, mutable)] — one field outside the wire range each"""
+        out = []
+
+        def vin_with(j, k, val):
+            v = list(base['vin'])
+            e = list(v[j])
+            e[k] = val
+            v[j] = tuple(e)
+            return v
+        for mut in (0, 1):
+            for ver in (2 ** 31, -2 ** 31 - 1):
+                out.append(('ver%d-%s' % (ver, 'mut' if mut else 'imm'), dict(base, ver=ver), mut))
+            for k in (0, 2):
+                for val in (2 ** 63, -2 ** 63 - 1):
+                    vout = list(base['vout'])
+                    vout[k] = (val, vout[k][1])
+                    out.append(('value%d@%d-%s' % (val, k, 'mut' if mut else 'imm'), dict(base, vout=vout), mut))
+        out.append(('lock', dict(base, lock=2 ** 32), 1))
+        for j in (0, 1, 2):
+            out.append(('seq@%d' % j, dict(base, vin=vin_with(j, 3, 2 ** 32)), 1))
+            out.append(('n@%d' % j, dict(base, vin=vin_with(j, 1, 2 ** 32)), 1))
+            out.append(('hash31@%d' % j, dict(base, vin=vin_with(j, 0, bytes(31))), 1))
+            out.append(('hash33@%d' % j, dict(base, vin=vin_with(j, 0, bytes(33))), 1))
+        return out
 
     def all_push_program(self, rng):
         parts = [b'\x00', push(b'\x01'), push(b'ab' * 10), push(b'c' * 75), push(b'd' * 76), push(b'e' * 255),
@@ -212,6 +250,40 @@ class C07(Prop, ScriptGen):
                 if i % nshards != shard:
                     continue
                 yield self.vf(sg_, spk_, mask | (0, 8)[i // 3 % 2], n % 3, 0, i // 5 % 2, tag=tag)
+        # D21 (known finding): transactions whose fields are OUTSIDE the wire range, reaching a signature check.
+        # Immutable objects: nVersion and nValue are not validated by the public constructors (serialize() then raises
+        # struct.error inside RawSignatureHash); mutable objects with assigned nLockTime / nSequence / prevout.n = 2^32 or
+        # a 31-byte prevout hash (CMutableTransaction.from_tx then raises ValueError).  Neighbours that do not reach the
+        # serialisation of the offending field (no signature check, empty signature, SIGHASH_NONE for nValue) are included.
+        i = 0
+        base = self.txs[1]
+        good1 = self.sign(0, push(self.key(0)[1]) + b'\xac', 1, 1)
+        spk_ = push(self.key(0)[1]) + b'\xac'
+        for (name, t, mut) in self.oor_transactions(base):
+            ttext = txfmt.show_tx(t)
+            for idx in (0, 1, 3):
+                i += 1
+                if i % nshards != shard:
+                    continue
+                for mask in (0, 1):
+                    for htb in (None, 0x02, 0x03, 0x81, 0x82):
+                        sg_ = good1 if htb is None else good1[:-1] + bytes([htb])
+                        yield mk('c07.verify', push(sg_).hex(), spk_.hex(), mask, ttext, idx, mut, tag='oor-%s-p2pk' % name)
+                    yield mk('c07.verify', (b'\x00' + push(good1)).hex(), (b'\x51' + spk_[:-1] + b'\x51\xae').hex(), mask,
+                             ttext, idx, mut, tag='oor-%s-cms' % name)
+                    yield mk('c07.verify', b'\x00'.hex(), spk_.hex(), mask, ttext, idx, mut, tag='oor-%s-emptysig' % name)
+                    yield mk('c07.verify', '51', '51', mask, ttext, idx, mut, tag='oor-%s-nosig' % name)
+                yield mk('c07.eval', 'ac', stack_arg([good1, self.key(0)[1]]), 0, ttext, idx, mut, tag='oor-%s-eval' % name)
+        # every 1-opcode program at negative input indices (wrapping and not): no opcode but the signature ones may
+        # depend on inIdx — an IndexError from a stack site there is NOT D7
+        i = 0
+        for prog in _C06.one_op_programs(self):
+            i += 1
+            if i % nshards != shard:
+                continue
+            for (ti, idx) in ((0, -1), (0, -2), (1, -5), (2, -3)):
+                yield self.ev(prog, [b'\x01', b'\x02', b'\x03'], 0, ti, idx, 0, tag='1op-negative-index')
+                yield self.vf(b'\x51\x52\x53', prog + b'\x51', 0, ti, idx, 0, tag='1op-negative-index')
         # OPERAND matrix (shared ScriptGen.operand_matrix): every operand the code indexes into — signatures, public keys
         # — at every small length and every truncation point, reaching CHECKSIG / CHECKSIGVERIFY / CHECKMULTISIG(VERIFY)
         # bare, through P2SH and by EvalScript
@@ -267,7 +339,7 @@ class C07(Prop, ScriptGen):
 
     # ---- real code -----------------------------------------------------------------------------------
     def observe(self, fn, txo, scripts, init_max=0, stack_budget=0):
-        before = txo.serialize()
+        before = self.snapshot(txo)
         copies = [bytes(s) for s in scripts]
         suffix = ''
         try:
@@ -287,7 +359,7 @@ class C07(Prop, ScriptGen):
                 tot = (len(st) if st is not None else 0) + (len(e.altstack) if e.altstack is not None else 0)
                 if tot > 1003 + stack_budget or not self.limits_ok_rest(e, init_max):
                     suffix += '!limits'
-        if txo.serialize() != before or any(bytes(s) != c for s, c in zip(scripts, copies)):
+        if self.snapshot(txo) != before or any(bytes(s) != c for s, c in zip(scripts, copies)):
             suffix += '!mutated'
         return out + suffix
 
@@ -304,7 +376,7 @@ class C07(Prop, ScriptGen):
         if c['op'] == 'c07.seq':
             return self.run_history(a, observe=self.observe)
         mut = a[5] == '1'
-        txo = txfmt.to_tx(txfmt.parse_tx(a[3]), mutable=mut)
+        txo = self.build_tx(txfmt.parse_tx(a[3]), mut)
         mask, idx = int(a[2]), int(a[4])
         if c['op'] == 'c07.verify':
             sig = self.S.CScript(bytes.fromhex(a[0]))
@@ -391,14 +463,24 @@ class C07(Prop, ScriptGen):
                     sigs.add(self.signature(one, i1, m1))
             return sigs.pop() if len(sigs) == 1 else None
         mask, idx = int(a[2]), int(a[4])
-        if io == 'err:py:AssertionError' and c['op'] == 'c07.verify' and (mask & 4) and not (mask & 1):
-            return 'D6-cleanstack-without-p2sh'
-        if io == 'err:py:IndexError' and idx < 0:
-            # only where Props/C06Concrete `only_known_findings_real` allows it: the index does not wrap
-            t = txfmt.parse_tx(a[3])
-            if idx < -len(t['vin']) or idx < -len(t['vout']):
-                return 'D7-negative-inidx'
         m = mo.split(' ~ ')[0]
+        t = txfmt.parse_tx(a[3])
+        wf = self.fields_wf(t)
+        # A known finding is recognised only when the MODEL — which mirrors Python, every exception an explicit outcome —
+        # gives the very same answer; the theorems then say where that answer can come from:
+        #  D6: `verifyCleanStack`'s assert is the only AssertionError left (C07.only_known_findings: AssertionError
+        #      implies inadmissible flags), reached after all evaluations succeeded;
+        #  D7: for a transaction in wire range an IndexError of the model comes from RawSignatureHash and from nowhere
+        #      else (C06.Concrete.only_known_findings_real / raises_real_iff: no stack site), at an index that does not
+        #      wrap around vin (or, SIGHASH_SINGLE, around vout);
+        #  D21: fields outside the wire range: struct.error (serialize) / ValueError (from_tx) out of RawSignatureHash.
+        # An IndexError / AssertionError / struct.error that the model does not reproduce is a VIOLATION.
+        if io == m == 'err:py:AssertionError' and c['op'] == 'c07.verify' and (mask & 4) and not (mask & 1):
+            return 'D6-cleanstack-without-p2sh'
+        if io == m == 'err:py:IndexError' and wf and idx < 0 and (idx < -len(t['vin']) or idx < -len(t['vout'])):
+            return 'D7-negative-inidx'
+        if io == m and io in ('err:py:error', 'err:valueerr') and not wf:
+            return 'D21-out-of-range-tx-fields-struct-error'
         scripts = [bytes.fromhex(a[0])] + ([bytes.fromhex(a[1])] if c['op'] == 'c07.verify' else [])
         ops = [o for s in scripts for (o, _, _) in parse_ops(s)]
         if sum(1 for o in ops if o <= 0x4e) >= 900 and (io.endswith('!limits') or (io.startswith('ok') and m.startswith('err:validation'))):
